@@ -10,7 +10,7 @@ import (
 )
 
 // allowed is the mode table of the property, written once.
-func allowed(ci bool, opt int, env string) (create, rewrite, clean bool) {
+func vxAllowed(ci bool, opt int, env string) (create, rewrite, clean bool) {
 	if ci {
 		return false, false, false
 	}
@@ -35,14 +35,14 @@ func H_C05_match() {
 	opt := vxrt.Choice("update-option", 3)
 	api := vxrt.Choice("api", 5)
 	state := vxrt.Choice("entry-state", 3) // 0 missing, 1 equal, 2 different
-	c := cfgWithOpt(dir, opt)
+	c := vxCfgWithOpt(dir, opt)
 	stored := `"s"`
 	recv := stored
 	if state == 2 {
 		recv = `"r"`
 	}
-	t := newT("TestM")
-	call := func(t *mockT, v string) {
+	t := vxNewT("TestM")
+	call := func(t *vxMockT, v string) {
 		switch api {
 		case 0:
 			c.MatchSnapshot(t, v)
@@ -61,23 +61,23 @@ func H_C05_match() {
 		perm := WithConfig(Dir(dir), Filename("f"), Update(true))
 		switch api {
 		case 0:
-			writeFile(dir+"/f.snap", frame("TestM - 1", stored))
+			vxWriteFile(dir+"/f.snap", vxFrame("TestM - 1", stored))
 		case 1:
-			writeFile(dir+"/f.snap", frame("TestM - 1", stored))
+			vxWriteFile(dir+"/f.snap", vxFrame("TestM - 1", stored))
 		case 2:
-			writeFile(dir+"/f.snap", frame("TestM - 1", stored))
+			vxWriteFile(dir+"/f.snap", vxFrame("TestM - 1", stored))
 		case 3:
-			writeFile(dir+"/f_1.snap", stored)
+			vxWriteFile(dir+"/f_1.snap", stored)
 		default:
-			writeFile(dir+"/f_1.snap.json", stored)
+			vxWriteFile(dir+"/f_1.snap.json", stored)
 		}
 		_ = perm
 	}
 	ci := ciinfo.IsCI
 	env := os.Getenv("UPDATE_SNAPS")
-	create, rewrite, _ := allowed(ci, opt, env)
+	create, rewrite, _ := vxAllowed(ci, opt, env)
 	stamp := vxrt.FSStamp()
-	before := dumpDir(dir)
+	before := vxDumpDir(dir)
 	call(t, recv)
 	t.end()
 	wrote := vxrt.FSStamp() != stamp
@@ -88,7 +88,7 @@ func H_C05_match() {
 			vxrt.Assert(len(t.errors) == 0 && len(t.logs) == 1 && wrote, "C05:missing-created-when-allowed")
 		} else {
 			vxrt.Assert(len(t.errors) == 1 && len(t.logs) == 0, "C05:missing-fails-when-creation-forbidden")
-			vxrt.Assert(!wrote && vxrt.Eq(dumpDir(dir), before), "C05:no-write-when-creation-forbidden")
+			vxrt.Assert(!wrote && vxrt.Eq(vxDumpDir(dir), before), "C05:no-write-when-creation-forbidden")
 		}
 	case 1:
 		vxrt.Reach("equal")
@@ -99,7 +99,70 @@ func H_C05_match() {
 			vxrt.Assert(len(t.errors) == 0 && len(t.logs) == 1 && wrote, "C05:mismatch-rewritten-when-allowed")
 		} else {
 			vxrt.Assert(len(t.errors) == 1 && len(t.logs) == 0, "C05:mismatch-fails-when-update-forbidden")
-			vxrt.Assert(!wrote && vxrt.Eq(dumpDir(dir), before), "C05:no-write-when-update-forbidden")
+			vxrt.Assert(!wrote && vxrt.Eq(vxDumpDir(dir), before), "C05:no-write-when-update-forbidden")
 		}
 	}
+}
+
+// H_C05_readonly: a read-only mode (CI, Update(false), or no permission from the environment)
+// stays read-only whatever the file looks like: a snapshot file with CRLF line endings (an
+// autocrlf checkout) is only read by a passing or a failing call of any keyed entry point.
+func H_C05_readonly() {
+	vxrt.CISymbolic()
+	vxrt.YAMLAssume(true)
+	vxrt.EnvFixed("NO_COLOR", "1")
+	vxrt.EnvFixed("UPDATE_SNAPS", "")
+	dir := vxrt.Dir()
+	path := dir + "/f.snap"
+	eol := []string{"\n", "\r\n"}[vxrt.Choice("line-endings", 2)]
+	vxWriteFile(path, eol+"[TestM - 1]"+eol+`"v"`+eol+"---"+eol+eol+"[TestZ - 1]"+eol+"z"+eol+"---"+eol)
+	before := vxReadFile(path)
+	var c *Config
+	if vxrt.Bool("update-false") {
+		c = WithConfig(Dir(dir), Filename("f"), Update(false))
+	} else {
+		c = WithConfig(Dir(dir), Filename("f"))
+	}
+	recv := []string{`"v"`, `"w"`}[vxrt.Choice("received", 2)]
+	stamp := vxrt.FSStamp()
+	t := vxNewT("TestM")
+	switch vxrt.Choice("api", 3) {
+	case 0:
+		c.MatchSnapshot(t, recv)
+	case 1:
+		c.MatchJSON(t, recv)
+	default:
+		c.MatchYAML(t, recv)
+	}
+	t.end()
+	vxrt.Assert(vxrt.FSStamp() == stamp && vxReadFile(path) == before, "C05:no-write-without-permission")
+	if recv == `"w"` {
+		vxrt.Assert(len(t.errors) == 1, "C05:mismatch-fails-when-update-forbidden")
+	}
+}
+
+// H_C05_run: under a -run filter Clean still only reports outside clean mode: an obsolete snapshot
+// file whose test source declares a selected test (so nothing exempts it) is listed and kept; in
+// clean mode off CI it is removed.
+func H_C05_run() {
+	vxrt.CISymbolic()
+	vxrt.EnvFixed("NO_COLOR", "1")
+	vxrt.EnvSymbolic("UPDATE_SNAPS", 5)
+	vxrt.Flag("test.count", "1")
+	vxrt.Flag("test.run", "TestA")
+	dir := vxrt.Dir() + "/__snapshots__"
+	vxWriteFile(dir+"/f_test.snap", vxFrame("TestA - 1", "a"))
+	vxrt.TestSources(vxrt.Dir()+"/f_test.go", "TestA", "TestB")
+	vxWriteFile(dir+"/old_test.snap", vxFrame("TestAOld - 1", "stale"))
+	vxrt.TestSources(vxrt.Dir()+"/old_test.go", "TestAOld")
+	c := WithConfig(Dir(dir), Filename("f_test"), Update(false))
+	t := vxNewT("TestA")
+	c.MatchSnapshot(t, "a")
+	t.end()
+	vxrt.Assert(len(t.errors) == 0, "setup:passes")
+	ci, env := ciinfo.IsCI, os.Getenv("UPDATE_SNAPS")
+	cleanMode := !ci && (env == "true" || env == "clean")
+	Clean(nil)
+	gone := vxReadFile(dir+"/old_test.snap") == "<missing>"
+	vxrt.Assert(gone == cleanMode, "C05:clean-deletes-only-in-clean-mode")
 }
